@@ -238,6 +238,7 @@ def run(ctx):
     root_homonym_probe(ctx, root)
     path_spelling_probe(ctx, root)
     ambient_probe(ctx, root)
+    class_history_probe(ctx, root)
 
 
 K2_SRC = '''
@@ -398,7 +399,16 @@ def auto_objects(ctx, root):
             t1, o1 = build(d, kwargs, '/srv/data', nest=nest)
             impl = {'repr': o1.repr()}
         except AttributeError:
-            impl = {'error': 'AttributeError'}; t1 = o1 = None
+            impl = {'error': 'AttributeError'}
+            # an object whose text cannot be derived has no location either: the key is refused, not taken from some other text of the object
+            # (its definition, whose kwargs order would then matter)
+            try:
+                t_bad, _ = build(d, kwargs, '/srv/data', nest=nest)
+                k_bad = t_bad.name_for_persistence
+                ctx.fail('a parameter object whose representation cannot be derived was given a storage key all the same', case, {'key': k_bad})
+            except AttributeError:
+                pass
+            t1 = o1 = None
         ctx.case(case, nontrivial=len(d['args']) >= 2)
         ctx.count('auto-object:' + ('repr' if 'repr' in impl else 'attribute-error'))
         for a in d['args']:
@@ -713,6 +723,42 @@ def ambient_probe(ctx, root):
             os.environ.pop('HOME', None)
         else:
             os.environ['HOME'] = old_home
+    b.cleanup_module()
+
+
+def class_history_probe(ctx, root):
+    """the location does not depend on what the process did before: a parameter object of a SUBCLASS has the same text whether or not an
+    object of its parent class was used earlier in the process"""
+    from taskchain import Config
+    from taskchain.parameter import AutoParameterObject
+    spec = {'classes': {'K0': {'name': 'o', 'group': '', 'params': [{'name': 'obj'}], 'inputs': [], 'kind': 'json', 'run_args': []}}, 'files': {}, 'main': None}
+    b = pl.materialize(spec, root / 'clshist', modname=gen.fresh_modname())
+    cls = getattr(b.module(), pl.pyname('K0'))
+
+    def classes():
+        class Base(AutoParameterObject):
+            def __init__(self, scale=1):
+                self.scale = scale
+
+        class Extended(Base):
+            def __init__(self, scale=1, extra=0):
+                super().__init__(scale)
+                self.extra = extra
+        return Base, Extended
+
+    def key_of(o):
+        return Config(root / 'clshistd', name='c', data={'tasks': [cls], 'obj': o}).chain().tasks['o'].name_for_persistence
+    keys = {}
+    for order in ('subclass first', 'parent first', 'parent first, twice'):
+        Base, Extended = classes()
+        if order != 'subclass first':
+            for _ in range(2 if 'twice' in order else 1):
+                _ = key_of(Base(7))
+        keys[order] = key_of(Extended(2, extra=5))
+    case = {'probe': 'parameter object of a subclass, with and without earlier use of the parent class'}
+    ctx.case(case); ctx.count('class-history-probe')
+    if len(set(keys.values())) > 1:
+        ctx.fail('the location of a task depends on which parameter-object classes the process used before', case, keys)
     b.cleanup_module()
 
 
